@@ -5,6 +5,7 @@ from common import codes, uncodes
 import tokutil
 import c03_sessions as S
 import c03_guard as G
+import c03_forms as F
 
 PID = 'C03'
 GENS = ['tok', 'c03']
@@ -22,7 +23,14 @@ RULE = ("exhaustive: every string of length <= L (L=3 quick; thorough adds lengt
         "driven by call/peek/push_back/line_num assignments and abandoned (tokens still pushed back, after an error, or "
         "with the chunk iterator raising mid-string/mid-comment), followed by a fresh Tokenizer over a generated text "
         "with random options and delivery whose full stream must equal the model's and the result on a pristine import. "
-        "A case = (text, option set, delivery) or one session; non-trivial = the text contains a character with syntactic meaning; "
+        "argument forms: for ~100 short texts x 2 option sets, every form of the arguments the code accepts today (str "
+        "subclass, list/tuple/generator/iter/map/deque/object with __iter__ and .name, io.StringIO / text file / "
+        "TextIOWrapper at position 0, after read(k), after readline(), exhausted, filename str/Path/bytes/None/from "
+        ".name, error None/subclass, positional/keyword, truthy option values, the same list in two interleaved "
+        "tokenizers and re-used) must give the stream of Tokenizer(<denoted text>) and of the model, leave lists and "
+        "option dicts unchanged; rejected forms (bytes, bytearray, memoryview, non-str chunks, binary files, None) must "
+        "stay rejected as coded; the same for the file_contents forms of Keyvalues.parse. "
+        "A case = (text, option set, delivery) or one session or one (text, options) of the forms phase; non-trivial = the text contains a character with syntactic meaning; "
         "distinct counted per (text, delivery) for the exhaustive part and per (text, options, delivery) for documents.")
 TRUSTED = ["models: TokC (lean/Srctools/Model/TokC.lean, the chunk cursor with Python index semantics and every loop of "
            "_get_token/_handle_comment/_handle_string) and TokA (Model/Tok.lean); tables regenerated from tokenizer.py by "
@@ -96,11 +104,8 @@ _HANGS = {'n': 0}
 
 def _impl_run_guarded(Tokenizer, TSE, s, opts, n):
     """tokutil.impl_run on the plain class, under the watchdog."""
-    try:
-        with G.limit(OBSERVE_LIMIT_S):
-            return tokutil.impl_run(Tokenizer, TSE, s, opts, max_calls=n + 2)
-    except G.Watchdog:
-        return {'toks': [], 'err': None, 'exc': f'no result within {OBSERVE_LIMIT_S} s'}
+    ok, r = G.retrying(lambda: tokutil.impl_run(Tokenizer, TSE, s, opts, max_calls=n + 2), OBSERVE_LIMIT_S)
+    return r if ok else {'toks': [], 'err': None, 'exc': f'no result within {OBSERVE_LIMIT_S} s of CPU time (twice)'}
 
 
 _CLS = {}
@@ -125,8 +130,19 @@ def _classes():
 
 
 def observe(data, opts, n):
-    """The property, on one delivery `data` of a text of n characters, with the counting subclass.
+    """The property, on one delivery of a text of n characters, with the counting subclass. `data` is the delivery or
+    a zero-argument factory of it (then a watchdog hit is re-tried once with a larger limit before it counts).
     Returns (result in drv shape incl. 'exc', calls until the first EOF/error, problems)."""
+    if not callable(data):
+        return _observe_once(data, opts, n, OBSERVE_LIMIT_S)
+    out = _observe_once(data(), opts, n, OBSERVE_LIMIT_S)
+    if out[0].get('watchdog'):
+        _HANGS['n'] -= 1
+        out = _observe_once(data(), opts, n, 3 * OBSERVE_LIMIT_S)
+    return out
+
+
+def _observe_once(data, opts, n, limit_s):
     Tokenizer, CountTok, TSE = _classes()
     kw = dict(zip(tokutil.OPT_NAMES, opts))
     problems = []
@@ -136,7 +152,7 @@ def observe(data, opts, n):
     if _HANGS['n'] >= MAX_HANGS:      # this process already lost MAX_HANGS x the limit: the witnesses exist, do not wait again
         res['exc'] = 'skipped: the watchdog already fired %d times in this process' % _HANGS['n']
         return res, 0, problems
-    G.arm(OBSERVE_LIMIT_S)
+    G.arm(limit_s)
     try:
         tok = CountTok(data, None, **kw)
         tok.limit = 4 * n + 64
@@ -169,7 +185,8 @@ def observe(data, opts, n):
         return res, 4 * n + 64, problems
     except G.Watchdog:
         _HANGS['n'] += 1
-        res['exc'] = f'no result within {OBSERVE_LIMIT_S} s (after {len(toks)} tokens)'
+        res['exc'] = f'no result within {limit_s} s of CPU time (after {len(toks)} tokens)'
+        res['watchdog'] = True
         problems.append(('non-termination', res['exc']))
         return res, getattr(tok, 'calls', 0), problems
     except Exception as e:
@@ -218,7 +235,7 @@ def _exh_worker(strings):
             opts = optset(oi)
             ref = None
             for name, mk in dels:
-                r, calls, pr = observe(mk(), opts, n)
+                r, calls, pr = observe(mk, opts, n)
                 if calls > maxcalls:
                     maxcalls = calls
                 if ref is None:
@@ -381,7 +398,7 @@ def _doc_worker(jobs):
             row = []
             probs = []
             for (name, chunks, _isstr) in dels:
-                r, calls, pr = observe(_mk_delivery(name, chunks, s), opts, n)
+                r, calls, pr = observe(lambda: _mk_delivery(name, chunks, s), opts, n)
                 for key, what in pr:
                     probs.append((key, what, name))
                 if ref is None:
@@ -618,6 +635,11 @@ def correspond(ctx, drivers):
     run_sessions(ctx, drv_c)
     ctx.extra['sessions_wall_s'] = round(time.time() - t0, 1)
 
+    # 4. argument forms and aliasing
+    t0 = time.time()
+    run_forms(ctx, drv_a)
+    ctx.extra['forms_wall_s'] = round(time.time() - t0, 1)
+
 
 # --------------------------------------------------------------------------- sessions
 
@@ -684,6 +706,53 @@ def run_sessions(ctx, drv):
                 ctx.disagree({'session': calls, 'call': c}, r, want, 'session call vs model (pure function of the call)')
 
 
+# --------------------------------------------------------------------------- argument forms and aliasing
+
+def _forms_one(ctx, classes, text, opts, rng, tmpdir, reqs=None, meta=None):
+    problems, denoted = F.tokenizer_forms(classes, text, opts, rng, tmpdir)
+    for form, what in problems[:4]:
+        ctx.witness('argument-form', f'text {text!r}, options {dict(zip(tokutil.OPT_NAMES, opts))}, argument form "{form}": {what}',
+                    {'s': codes(text), 'opts': opts, 'form': form})
+    if reqs is not None:
+        seen = {}
+        for form, den, r in denoted:
+            if den not in seen:
+                seen[den] = len(reqs)
+                reqs.append({'op': 'run', 'opts': opts, 's': codes(den), 'fold': tokutil.fold_table(den)})
+            meta.append((text, opts, form, den, r, seen[den]))
+    return len(problems), len(denoted)
+
+
+def run_forms(ctx, drv_a):
+    """Every accepted form of the arguments of Tokenizer(...) / Keyvalues.parse(...) gives the result of the canonical
+    form (and of the model on the denoted text), arguments are left unchanged, rejected forms stay rejected."""
+    import tempfile
+    from srctools.tokenizer import Tokenizer, TokenSyntaxError
+    from srctools.keyvalues import Keyvalues, KeyValError
+    rng = ctx.rng
+    texts = ending_cases()[::7] + list(S.SNIPPETS) + list(S.BROKEN)
+    texts += [gen_doc(rng)[:rng.randrange(5, 120)] for _ in range(ctx.budget(60, 600))]
+    reqs, meta = [], []
+    with tempfile.TemporaryDirectory(prefix='c03forms') as tmpdir:
+        for text in texts:
+            for opts in (list(tokutil.DEFAULT_OPTS), [rng.random() < 0.5 for _ in range(7)]):
+                np_, nd = _forms_one(ctx, (Tokenizer, TokenSyntaxError), text, opts, rng, tmpdir, reqs if drv_a is not None else None, meta)
+                ctx.count('argument forms: tokenizer runs', nd)
+                ctx.case({'forms': codes(text), 'opts': opts}, nontrivial=True, sample_every=211)
+                ctx.traces_vs_impl += nd
+        kvtexts = [rng.choice(['\n', '\r\n']).join(gen_kv(rng)) for _ in range(ctx.budget(60, 600))] + list(S.SNIPPETS)
+        for text in kvtexts:
+            for form, what in F.keyvalues_forms(Keyvalues, KeyValError, Tokenizer, text, rng)[:3]:
+                ctx.witness('argument-form', f'Keyvalues.parse, text {text!r}, argument form "{form}": {what}', {'kvform': codes(text), 'form': form})
+            ctx.count('argument forms: Keyvalues.parse texts')
+    if reqs:
+        replies = _drv_parallel(drv_a, reqs, parts=2)
+        for (text, opts, form, den, r, i) in meta:
+            m = replies[i]
+            if r.get('exc') or {'toks': r['toks'], 'err': r['err']} != m:
+                ctx.disagree({'s': codes(text), 'opts': opts, 'form': form, 'denoted': codes(den)}, r, m, 'argument form vs model on the denoted text')
+
+
 # --------------------------------------------------------------------------- direct search on the implementation
 
 def _check_text(ctx, s, optsets, rng=None, full=False):
@@ -700,7 +769,7 @@ def _check_text(ctx, s, optsets, rng=None, full=False):
     for opts in optsets:
         ref = None
         for name, mk in dels:
-            r, calls, pr = observe(mk(), opts, n)
+            r, calls, pr = observe(mk, opts, n)
             for key, what in pr:
                 _witness_from(ctx, s, key, what, opts, name)
                 found += 1
@@ -750,12 +819,13 @@ def _kv_parse_check(ctx, text, chunks=None, kw=None, limit_s=KV_LIMIT_S):
     kw = dict(kw or {})
 
     def one(data):
+        ok, r = G.retrying(lambda: one_(data), limit_s)
+        return r if ok else ('HANG', f'no result within {limit_s} s of CPU time (twice)', None, None)
+
+    def one_(data):
         try:
-            with G.limit(limit_s):
-                kv = Keyvalues.parse(data, **kw)
-                return ('ok', kv.serialise() if hasattr(kv, 'serialise') else repr(kv), None, None)
-        except G.Watchdog:
-            return ('HANG', f'no result within {limit_s} s', None, None)
+            kv = Keyvalues.parse(data, **kw)
+            return ('ok', kv.serialise() if hasattr(kv, 'serialise') else repr(kv), None, None)
         except KeyValError as e:
             return ('KeyValError', e.mess, e.line_num, None)
         except Exception as e:
@@ -808,6 +878,7 @@ def search(ctx):
             s = gen_doc(rng)
             _check_text(ctx, s, [tokutil.DEFAULT_OPTS, [rng.random() < 0.5 for _ in range(7)]], rng)
         run_sessions(ctx, None)
+        run_forms(ctx, None)
     # (b) neighbours of every disagreeing input
     for d in ctx.disagreements[:20]:
         c = d.get('case') or {}
@@ -895,6 +966,20 @@ def replay(ctx, payload):
         ok = _kv_parse_check(ctx, t, ch, inp.get('kw'))
         print('Keyvalues.parse input', repr(t), 'options', inp.get('kw'), 'chunks', ch, '->', 'only KeyValError / ok' if ok else ctx.witnesses[-1]['what'])
         return ok
+    if 'form' in inp:
+        import random, tempfile
+        from srctools.tokenizer import Tokenizer, TokenSyntaxError
+        from srctools.keyvalues import Keyvalues, KeyValError
+        if 'kvform' in inp:
+            probs = F.keyvalues_forms(Keyvalues, KeyValError, Tokenizer, uncodes(inp['kvform']), random.Random(0))
+        else:
+            with tempfile.TemporaryDirectory(prefix='c03forms') as tmpdir:
+                probs = []
+                for seed in range(5):
+                    probs += F.tokenizer_forms((Tokenizer, TokenSyntaxError), uncodes(inp['s']), inp['opts'], random.Random(seed), tmpdir)[0]
+        for form, what in probs[:5]:
+            print(f'  argument form "{form}": {what}')
+        return not probs
     if 'session' in inp:
         bad = S.session_fails(inp['session'])
         print('session:', S.describe(inp['session'][:-1]), '; THEN', S.describe(inp['session'][-1:]))
